@@ -80,37 +80,52 @@ def ref_alive(spec, maskbits):
 
 
 def ref_partition(spec):
-    """the sharing partition a correct conversion needs (used for user-placed PIT layers and as a
-    readable cross-check of the Coq model): node -> (class id, frozen) or None."""
+    """the sharing partition of the repaired conversion (used for user-placed PIT layers and as a readable
+    cross-check of the Coq model): node -> (class id, frozen) or None."""
     nodes = spec['nodes']
     n = len(nodes)
-    par = list(range(n + 1))     # n = the fx output node
+    auto = spec.get('autoconvert', True)
+    par = list(range(n))
 
     def find(x):
         while par[x] != x:
             par[x] = par[par[x]]
             x = par[x]
         return x
-
-    def cut(i):
-        nd = nodes[i]
-        return nd['k'] == 'in' or (nd['k'] in LAYER and not is_dw(nd)) or (nd['k'] == 'cat' and nd['dim'] == 1)
+    iscat = lambda i: nodes[i]['k'] == 'cat' and nodes[i]['dim'] == 1
+    full = lambda i: nodes[i]['k'] in LAYER and not is_dw(nodes[i])
+    module = lambda i: nodes[i]['k'] in LAYER + BN
+    fixed = lambda i: module(i) and (CG.excluded(spec, i) or (not auto and nodes[i].get('pit') is None))
+    search = lambda i: nodes[i]['k'] in LAYER and not fixed(i)
     for i, nd in enumerate(nodes):
-        if not cut(i):
+        if not (nd['k'] == 'in' or full(i) or iscat(i)):
             for j in srcs(nd):
                 par[find(j)] = find(i)
-    for o in spec['out']:
-        par[find(o)] = find(n)
     comp = {}
-    for i in range(n + 1):
+    for i in range(n):
         comp.setdefault(find(i), []).append(i)
+    frozen = set()
+    for r, mem in comp.items():
+        if any(nodes[m]['k'] == 'in' or m == n - 1 or fixed(m) for m in mem):
+            frozen.add(r)
+        if any(fixed(u) and m in srcs(nodes[u]) for m in mem for u in range(n)):
+            frozen.add(r)
+        cats = [m for m in mem if iscat(m)]
+        if cats and (len(cats) > 1 or any(search(m) for m in mem)):
+            frozen.add(r)
+    work = list(frozen)
+    while work:
+        r = work.pop()
+        for m in comp[r]:
+            if iscat(m):
+                for s_ in srcs(nodes[m]):
+                    if find(s_) not in frozen:
+                        frozen.add(find(s_))
+                        work.append(find(s_))
     out = {}
     for r, mem in comp.items():
-        frozen = any(m == n or nodes[m]['k'] == 'in' for m in mem)
-        defining = [m for m in mem if m < n and (nodes[m]['k'] == 'in' or (nodes[m]['k'] in LAYER and not is_dw(nodes[m])))]
         for m in mem:
-            if m < n:
-                out[m] = (min(mem), frozen) if defining else None
+            out[m] = (min(mem), r in frozen)
     return out
 
 
@@ -380,7 +395,7 @@ def classes_of(spec):
     for i, nd in enumerate(nodes):
         if nd['k'] == 'squeeze':
             rank = len(sh[nd['src']]) + 1
-            if rank == 4 and (nd['dim'] == 3):
+            if rank == 4 and nd['dim'] == 3 and sh[nd['src']][1] > 1:
                 out.append('squeeze-trailing-axis-of-4d')
         if iscat(i) and len(set(nd['src'])) < len(nd['src']):
             out.append('cat-repeats-a-tensor')
